@@ -19,6 +19,7 @@ def main():
         if d.kind == "func" and ("effectfree" in d.flags or "assumed" in d.flags or "opaque" in d.flags):
             continue
         t0 = time.time()
+        eng.deadline = time.time() + 60
         try:
             if d.kind == "coverage":
                 eng.verify_coverage(d); info = "coverage"
